@@ -321,6 +321,63 @@ func registerMisc(P *Program) {
 		}
 		return nil
 	})
+	// sync.Map as a plain map keyed by the receiver's identity (single-threaded execution; keys must be concrete)
+	syncMap := func(it *Interp, recv Value) *MapV {
+		key := "syncmap:" + keyString(recv.(*Ptr))
+		if m, ok := it.store[key]; ok {
+			return m.(*MapV)
+		}
+		it.cellSeq++
+		m := &MapV{M: map[string]*mapEntry{}, id: it.cellSeq}
+		it.store[key] = m
+		return m
+	}
+	syncKey := func(it *Interp, k Value) string {
+		if iv, ok := k.(*IfaceV); ok && iv != nil {
+			if _, sym := iv.V.(*Sym); sym {
+				panic(unsupported("sync.Map with a symbolic key at " + it.where()))
+			}
+		}
+		return keyString(k)
+	}
+	P.reg("(*sync.Map).Load", func(it *Interp, a []Value) Value {
+		if e, ok := syncMap(it, a[0]).M[syncKey(it, a[1])]; ok {
+			return Tuple{e.V, true}
+		}
+		return Tuple{(*IfaceV)(nil), false}
+	})
+	P.reg("(*sync.Map).Store", func(it *Interp, a []Value) Value {
+		m, ks := syncMap(it, a[0]), syncKey(it, a[1])
+		if e, ok := m.M[ks]; ok {
+			e.V = a[2]
+		} else {
+			m.M[ks] = &mapEntry{K: a[1], V: a[2]}
+			m.Keys = append(m.Keys, ks)
+		}
+		return nil
+	})
+	P.reg("(*sync.Map).LoadOrStore", func(it *Interp, a []Value) Value {
+		m, ks := syncMap(it, a[0]), syncKey(it, a[1])
+		if e, ok := m.M[ks]; ok {
+			return Tuple{e.V, true}
+		}
+		m.M[ks] = &mapEntry{K: a[1], V: a[2]}
+		m.Keys = append(m.Keys, ks)
+		return Tuple{a[2], false}
+	})
+	P.reg("(*sync.Map).Delete", func(it *Interp, a []Value) Value {
+		m, ks := syncMap(it, a[0]), syncKey(it, a[1])
+		if _, ok := m.M[ks]; ok {
+			delete(m.M, ks)
+			for i, k := range m.Keys {
+				if k == ks {
+					m.Keys = append(append([]string{}, m.Keys[:i]...), m.Keys[i+1:]...)
+					break
+				}
+			}
+		}
+		return nil
+	})
 	P.reg("bytes.Equal", func(it *Interp, a []Value) Value {
 		if isBlob(a[0]) || isBlob(a[1]) {
 			panic(unsupported("bytes.Equal on typed blob"))
